@@ -315,7 +315,8 @@ async def expunged_scenario(backend):
     conns = [a]
     cur = a
     for line in FETCH_ALL + (b'FETCH 1 (UID RFC822.HEADER)', b'FETCH 2 (BODY.PEEK[HEADER.FIELDS (Subject)] BODYSTRUCTURE)', b'UID FETCH 1:* (ENVELOPE)',
-                             b'STORE 1 +FLAGS (\\Seen)', b'COPY 1:* Box', b'NOOP', b'FETCH 1:* (UID)'):
+                             b'STORE 1 +FLAGS (\\Seen)', b'COPY 1:* Box', b'MOVE 1 Box', b'UID MOVE 1:* Box', b'UID COPY 1:* Box',
+                             b'UID STORE 1:* -FLAGS.SILENT (\\Seen)', b'SEARCH ALL', b'UID EXPUNGE 1:*', b'NOOP', b'FETCH 1:* (UID)'):
         r = await cur.cmd(line)
         if r['closed']:
             exc = cur.exception()
